@@ -37,6 +37,12 @@ pub struct Case {
     /// (only with QoS > 0)
     #[serde(default)]
     pub in_flags: u8,
+    /// another string-valued property in front of everything else, carrying something that looks like a topic:
+    /// 1 Content Type (legal on a PUBLISH); 2 Response Information, 3 Server Reference, 4 Reason String,
+    /// 5 Assigned Client Identifier, 6 Authentication Method (none of them legal on a PUBLISH: a client may refuse
+    /// the request - but it must not mistake them for the response topic)
+    #[serde(default)]
+    pub decoy: u8,
 }
 
 const CAPS: [(usize, usize); 7] = [(1, 1), (2, 1), (8, 4), (127, 8), (128, 128), (300, 0), (65535, 65535)];
@@ -146,6 +152,10 @@ pub fn eval(c: &Case) -> CaseOut {
                 props.extend(rt.clone());
             }
         }
+        const DECOYS: [u8; 7] = [0, 0x03, 0x1A, 0x1C, 0x1F, 0x12, 0x15];
+        if c.decoy != 0 {
+            props.insert(0, Prop { id: DECOYS[c.decoy as usize % 7], val: PVal::Str(b"decoy/topic".to_vec()) });
+        }
         let request = SPacket::Publish {
             dup: c.in_flags & 2 != 0 && c.in_qos > 0,
             qos: c.in_qos,
@@ -220,6 +230,10 @@ pub fn eval(c: &Case) -> CaseOut {
         };
         let class;
         match (&topic, result) {
+            (_, Owned::Err(e)) if e == "request-not-delivered" && c.decoy >= 2 => {
+                // the request carries a property MQTT 5 does not allow on a PUBLISH: refusing it is the client's right
+                class = 9;
+            }
             (Some(t), Owned::Err(e)) if e == "request-not-delivered" && c.topic_kind == 1 && t.contains(['+', '#']) => {
                 // MQTT-3.3.2-14 forbids wildcard characters in a Response Topic: a client that refuses the whole
                 // request as malformed is within its rights (C08 decides what is accepted); nothing to reply to
@@ -328,7 +342,7 @@ fn cases(tier: Tier) -> Vec<Case> {
                         if tier == Tier::Quick && in_qos == 1 && (t.unwrap_or(0) > 200 || cl.unwrap_or(0) > 200) {
                             continue;
                         }
-                        v.push(Case { topic_len: *t, corr_len: *cl, position, in_qos, add_user_props, owned: None, topic_kind: 0, same_topic: false, in_flags: 0 });
+                        v.push(Case { topic_len: *t, corr_len: *cl, position, in_qos, add_user_props, owned: None, topic_kind: 0, same_topic: false, in_flags: 0, decoy: 0 });
                     }
                 }
             }
@@ -342,7 +356,7 @@ fn cases(tier: Tier) -> Vec<Case> {
             for cl in [None, Some(0usize), Some(3), Some(255)] {
                 for position in 0..4u8 {
                     for owned in [None, Some(6usize)] {
-                        v.push(Case { topic_len: Some(t), corr_len: cl, position, in_qos: (t % 2) as u8, add_user_props: (t % 3) as u8, owned, topic_kind: 0, same_topic: false, in_flags: 0 });
+                        v.push(Case { topic_len: Some(t), corr_len: cl, position, in_qos: (t % 2) as u8, add_user_props: (t % 3) as u8, owned, topic_kind: 0, same_topic: false, in_flags: 0, decoy: 0 });
                     }
                 }
             }
@@ -352,7 +366,7 @@ fn cases(tier: Tier) -> Vec<Case> {
             for t in [None, Some(1usize), Some(9), Some(130)] {
                 for position in 0..4u8 {
                     for owned in [None, Some(6usize)] {
-                        v.push(Case { topic_len: t, corr_len: Some(cl), position, in_qos: (cl % 2) as u8, add_user_props: (cl % 3) as u8, owned, topic_kind: 0, same_topic: false, in_flags: 0 });
+                        v.push(Case { topic_len: t, corr_len: Some(cl), position, in_qos: (cl % 2) as u8, add_user_props: (cl % 3) as u8, owned, topic_kind: 0, same_topic: false, in_flags: 0, decoy: 0 });
                     }
                 }
             }
@@ -363,7 +377,19 @@ fn cases(tier: Tier) -> Vec<Case> {
         for cl in [None, Some(0usize), Some(4)] {
             for position in 0..4u8 {
                 for owned in [None, Some(4usize), Some(6)] {
-                    v.push(Case { topic_len: Some(t), corr_len: cl, position, in_qos: (t % 2) as u8, add_user_props: (t % 3) as u8, owned, topic_kind: 0, same_topic: true, in_flags: 0 });
+                    v.push(Case { topic_len: Some(t), corr_len: cl, position, in_qos: (t % 2) as u8, add_user_props: (t % 3) as u8, owned, topic_kind: 0, same_topic: true, in_flags: 0, decoy: 0 });
+                }
+            }
+        }
+    }
+    // another string property that looks like a topic, with and without a real response topic
+    for decoy in 1..7u8 {
+        for t in [None, Some(1usize), Some(20)] {
+            for cl in [None, Some(4usize)] {
+                for position in 0..4u8 {
+                    for owned in [None, Some(4usize), Some(6)] {
+                        v.push(Case { topic_len: t, corr_len: cl, position, in_qos: 1, add_user_props: 1, owned, topic_kind: 0, same_topic: false, in_flags: 0, decoy });
+                    }
                 }
             }
         }
@@ -375,7 +401,7 @@ fn cases(tier: Tier) -> Vec<Case> {
                 for position in [0u8, 2] {
                     for owned in [None, Some(0usize), Some(4), Some(6)] {
                         for in_qos in 0..3u8 {
-                            v.push(Case { topic_len: t, corr_len: cl, position, in_qos, add_user_props: 1, owned, topic_kind: 0, same_topic: false, in_flags });
+                            v.push(Case { topic_len: t, corr_len: cl, position, in_qos, add_user_props: 1, owned, topic_kind: 0, same_topic: false, in_flags, decoy: 0 });
                         }
                     }
                 }
@@ -387,7 +413,7 @@ fn cases(tier: Tier) -> Vec<Case> {
         for cl in [None, Some(0usize), Some(5)] {
             for position in 0..4u8 {
                 for owned in [None, Some(4usize), Some(6)] {
-                    v.push(Case { topic_len: Some(t), corr_len: cl, position, in_qos: (t % 2) as u8, add_user_props: (t % 3) as u8, owned, topic_kind: 1, same_topic: false, in_flags: 0 });
+                    v.push(Case { topic_len: Some(t), corr_len: cl, position, in_qos: (t % 2) as u8, add_user_props: (t % 3) as u8, owned, topic_kind: 1, same_topic: false, in_flags: 0, decoy: 0 });
                 }
             }
         }
@@ -405,7 +431,7 @@ fn cases(tier: Tier) -> Vec<Case> {
             for cl in &cls {
                 for add_user_props in [0u8, 1] {
                     for position in [0u8, 2] {
-                        v.push(Case { topic_len: *t, corr_len: *cl, position, in_qos: 1, add_user_props, owned: Some(k), topic_kind: 0, same_topic: false, in_flags: 0 });
+                        v.push(Case { topic_len: *t, corr_len: *cl, position, in_qos: 1, add_user_props, owned: Some(k), topic_kind: 0, same_topic: false, in_flags: 0, decoy: 0 });
                     }
                 }
             }
